@@ -299,6 +299,9 @@ class BadCalls(Analysis):
 
 class OvertlyBadEvals(Analysis):
     def analyze(self, context: AnalysisContext) -> Iterator[AnalysisResult]:
+        # calls this analysis has reported: the context-wide record cannot be used for this, because BadCalls
+        # registers every call there (without reporting it), which silenced the LIKELY_UNSAFE finding below
+        reported_calls: Set[str] = set()
         for node in context.pickled.properties.non_setstate_calls:
             if (
                 hasattr(node.func, "id")
@@ -307,7 +310,7 @@ class OvertlyBadEvals(Analysis):
                 # if the call is to a constructor of an object imported from the Python
                 # standard library, it's probably okay
                 continue
-            shortened, already_reported = context.shorten_code(node)
+            shortened, _ = context.shorten_code(node)
             if (
                 shortened.startswith("eval(")
                 or shortened.startswith("exec(")
@@ -324,7 +327,8 @@ class OvertlyBadEvals(Analysis):
                     "OvertlyBadEval",
                     trigger=shortened,
                 )
-            elif not already_reported:
+            elif shortened not in reported_calls:
+                reported_calls.add(shortened)
                 yield AnalysisResult(
                     Severity.LIKELY_UNSAFE,
                     f"Call to `{shortened}` can execute arbitrary code and is inherently unsafe",
